@@ -75,11 +75,16 @@ const (
 type rerr struct {
 	k   rkind
 	why string
+	// val: the failure depends on the VALUES of a well-typed application (division by zero, index
+	// out of range, a string that does not parse): no check of the point's types can find it, the
+	// operands have to be evaluated first.
+	val bool
 }
 
-func eErr(why string) *rerr    { return &rerr{kErr, why} }
-func eFault(why string) *rerr  { return &rerr{kFault, why} }
-func eUnspec(why string) *rerr { return &rerr{kUnspec, why} }
+func eErr(why string) *rerr    { return &rerr{k: kErr, why: why} }
+func eValErr(why string) *rerr { return &rerr{k: kErr, why: why, val: true} }
+func eFault(why string) *rerr  { return &rerr{k: kFault, why: why, val: true} }
+func eUnspec(why string) *rerr { return &rerr{k: kUnspec, why: why} }
 
 // ---------------------------------------------------------------- operator x type table
 //
@@ -576,7 +581,7 @@ func parseDuration(s string) (int64, *rerr) {
 		return 0, eUnspec("duration string overflows")
 	}
 	if !durLoose.MatchString(s) {
-		return 0, eErr("invalid duration string")
+		return 0, eValErr("invalid duration string")
 	}
 	return 0, eUnspec("compound/negative duration string")
 }
@@ -839,9 +844,9 @@ func (in *interp) call(t *Tree) (Val, *rerr) {
 		s, start, stop := args[0].S, args[1].I, args[2].I
 		switch {
 		case start < 0 || stop < 0:
-			return Val{}, eErr("negative index")
+			return Val{}, eValErr("negative index")
 		case stop > int64(len(s)):
-			return Val{}, eErr("stop index too large")
+			return Val{}, eValErr("stop index too large")
 		case start > stop:
 			return Val{}, eFault("strSubstring start > stop")
 		case stop == int64(len(s)):
@@ -865,17 +870,17 @@ func (in *interp) call(t *Tree) (Val, *rerr) {
 		case tString:
 			b, err := strconv.ParseBool(a.S)
 			if err != nil {
-				return Val{}, eErr("cannot convert string to bool")
+				return Val{}, eValErr("cannot convert string to bool")
 			}
 			out.B = b
 		case tInt:
 			if a.I != 0 && a.I != 1 {
-				return Val{}, eErr("cannot convert int to bool")
+				return Val{}, eValErr("cannot convert int to bool")
 			}
 			out.B = a.I == 1
 		case tFloat:
 			if a.F != 0 && a.F != 1 {
-				return Val{}, eErr("cannot convert float to bool")
+				return Val{}, eValErr("cannot convert float to bool")
 			}
 			out.B = a.F == 1
 		}
@@ -894,7 +899,7 @@ func (in *interp) call(t *Tree) (Val, *rerr) {
 		case tString:
 			i, err := strconv.ParseInt(a.S, 10, 64)
 			if err != nil {
-				return Val{}, eErr("cannot convert string to int")
+				return Val{}, eValErr("cannot convert string to int")
 			}
 			out.I = i
 		case tBool:
@@ -913,7 +918,7 @@ func (in *interp) call(t *Tree) (Val, *rerr) {
 		case tString:
 			f, err := strconv.ParseFloat(a.S, 64)
 			if err != nil {
-				return Val{}, eErr("cannot convert string to float")
+				return Val{}, eValErr("cannot convert string to float")
 			}
 			out.F = f
 		case tBool:
@@ -981,9 +986,14 @@ func (in *interp) call(t *Tree) (Val, *rerr) {
 		}
 	case "if":
 		lbl += "(" + types[1].String() + ")"
-		v := args[2]
+		v, other := args[2], t.A[1]
 		if args[0].B {
-			v = args[1]
+			v, other = args[1], t.A[2]
+		}
+		if other.hasStateful() {
+			// eager (a function: the stateful call in the other branch sees the point) or lazy
+			// (it does not): not documented, the state after this step is open
+			return Val{}, eUnspec("if(): stateful function in the branch that is not selected")
 		}
 		v.Approx = out.Approx
 		return v, nil
